@@ -259,7 +259,11 @@ pub fn gen_c19(g: &mut Gen, tier: &str) {
                     else { push_hostile(g, good.clone()); }
                 }
             }
-            3 => { let mut b = good.clone(); b[4] = *g.rng.pick(&[0u8, 1, b'1', b'2', b'3', b'4', 255]); push_hostile(g, b); }
+            3 => { // version byte of the first or (independently) of the second header
+                let mut b = good.clone();
+                let second = good.windows(4).skip(4).position(|w| w == b"TZif").map(|p| p + 4);
+                let at = match second { Some(h) if g.rng.chance(1, 2) => h + 4, _ => 4 };
+                b[at] = *g.rng.pick(&[0u8, 0, 1, b'1', b'2', b'3', b'4', 255]); push_hostile(g, b); }
             4 => { // random byte flips
                 let mut b = good.clone();
                 for _ in 0..(1 + g.rng.next() % 3) { let i = (g.rng.next() as usize) % b.len(); b[i] = g.rng.next() as u8; }
